@@ -114,6 +114,15 @@ def _leaf_ops(path, f, N, full):
         out.append(("posref", path, c))
         for v in (0, 1):
             out.append(("append", path, c, v))
+    # in-place arithmetic whose right operand is an element (CoordPayload) of the same fiber
+    for pos in range(len(vals)):
+        for c in (range(N + 1) if full else (0, N - 1)):
+            i = f.coords.index(c) if c in f.coords else None
+            cur = vals[i] if i is not None and i < len(vals) else 0
+            if cur + vals[pos] <= VMAX:
+                out.append(("refel", path, c, pos, "+="))
+            if cur * vals[pos] <= VMAX:
+                out.append(("refel", path, c, pos, "*="))
     for g in SMALL:
         out.append(("extend", path) + g)
     for pos in range(0, len(f.coords) + 1):
@@ -273,6 +282,13 @@ def _apply(S, op):
             r <<= 0
         elif a == "inc":
             r += 1
+    elif k == "refel":
+        el = f[op[3]]
+        r = f.getPayloadRef(op[2])
+        if op[4] == "+=":
+            r += el
+        else:
+            r *= el
     elif k == "posref":
         f.getPositionRef(op[2])
     elif k == "append":
